@@ -85,7 +85,7 @@ class BuiltinsMixin(object):
                 elif n == "pi":
                     env.vars[a] = self.math_const("pi")
                 else:
-                    env.vars[a] = Builtin(n, getattr(self, "m_" + n))
+                    env.vars[a] = Builtin(n, getattr(self, "m_" + n, None) or self.math_generic(n))
             return
         if module == "xml.etree.ElementTree":
             for n, a in names:
@@ -98,6 +98,22 @@ class BuiltinsMixin(object):
                 env.vars[a] = Builtin(n, self.unsupported(n))
             return
         raise Undecided("from %s import" % module)
+
+    def math_generic(self, name):
+        """a math function without a symbolic model: evaluated natively on concrete numbers (float mode, constants),
+        undecided on symbolic ones"""
+        fn = getattr(math, name)
+
+        def f(*args):
+            xs = [self.num_arg(a) for a in args]
+            if any(isinstance(x, SV) for x in xs):
+                raise Undecided("math.%s of a symbolic number" % name)
+            r = fn(*[float(x) if not isinstance(x, int) else x for x in xs])
+            if isinstance(r, tuple):
+                return tuple(self.concrete_float(v) if isinstance(v, float) else v for v in r)
+            return self.concrete_float(r) if isinstance(r, float) else r
+
+        return f
 
     def unsupported(self, what):
         def f(*a, **k):
@@ -229,8 +245,15 @@ class BuiltinsMixin(object):
         self.E.axiom(z3.Implies(y.t < 0, r.t < 0))
         return r
 
-    def m_log(self, x):
+    def m_log(self, x, base=None):
         x = self.num_arg(x)
+        if base is not None:
+            base = self.num_arg(base)
+            if isinstance(x, SV) or isinstance(base, SV):
+                raise Undecided("math.log with a base on symbolic numbers")
+            if x <= 0:
+                self.raise_("ValueError", "math domain error")
+            return self.concrete_float(math.log(float(x), float(base)))
         if self.float_mode and not isinstance(x, SV):
             if x <= 0:
                 self.raise_("ValueError", "math domain error")
@@ -290,10 +313,10 @@ class BuiltinsMixin(object):
             v = float(t)
         except ValueError:
             self.raise_("ValueError", "could not convert string to float: %r" % s)
-        if v != v or v in (float("inf"), float("-inf")):
-            raise Undecided("non-finite float literal")
         if self.float_mode:
             return v
+        if v != v or v in (float("inf"), float("-inf")):
+            raise Undecided("non-finite float literal")
         tl = t.lower().replace("_", "")
         try:
             return F(Fraction(tl))
